@@ -33,22 +33,32 @@ class RefSkip(Exception):
 
 # ----------------------------------------------------------------------------------------------- units
 # (factor to SI, (length exponent, time exponent)); '[len]' is the custom unit of the fixed environment (= 2 m)
+# dimension vector = (length, time, plane angle): the library counts `rad` as a base dimension of its own.
+# deg: the factor is the value PUBLISHED in the unit table of the library (1.7453292e-2, eight digits) - what a unit
+# means is the table entry (C03); the exact pi/180 differs from it by 2.7e-8 relative, which is a matter of the table,
+# not of the expression solver.
 UNITS = {
-    None: (F(1), (F(0), F(0))),
-    "m": (F(1), (F(1), F(0))),
-    "cm": (F(1, 100), (F(1), F(0))),
-    "mm": (F(1, 1000), (F(1), F(0))),
-    "s": (F(1), (F(0), F(1))),
+    None: (F(1), (F(0), F(0), F(0))),
+    "m": (F(1), (F(1), F(0), F(0))),
+    "cm": (F(1, 100), (F(1), F(0), F(0))),
+    "mm": (F(1, 1000), (F(1), F(0), F(0))),
+    "s": (F(1), (F(0), F(1), F(0))),
     "kg": (F(1), None),                       # only used by template nodes (never in arithmetic)
-    "[len]": (F(2), (F(1), F(0))),
+    "[len]": (F(2), (F(1), F(0), F(0))),
+    "rad": (F(1), (F(0), F(0), F(1))),
+    "mrad": (F(1, 1000), (F(0), F(0), F(1))),
+    "deg": (F("0.017453292"), (F(0), F(0), F(1))),
 }
-NODIM = (F(0), F(0))
+NODIM = (F(0), F(0), F(0))
+ANGLE = (F(0), F(0), F(1))
 
 
 def si_unit(dims):
     """SI unit string for a dimension vector with integral exponents ('' for dimensionless)"""
+    if dims[2] != 0:
+        raise RefSkip("angle-valued result")
     parts = []
-    for sym, e in zip(("m", "s"), dims):
+    for sym, e in zip(("m", "s"), dims[:2]):
         if e.denominator != 1:
             raise RefSkip("fractional dimension")
         e = int(e)
@@ -111,6 +121,8 @@ def num_features(a, out=None):
     if k == "lit":
         if a[2] == "[len]":
             out.add("custom-unit-literal")
+        if a[2] in ("deg", "rad", "mrad"):
+            out.add("angle-unit:" + a[2])
         if a[1].startswith("-"):
             out.add("negative-literal")
     elif k == "ref":
@@ -145,6 +157,9 @@ def _div(l, r):
 
 def _addsub(l, r, op, notes):
     if l[1] != r[1]:
+        if l[1][:2] == r[1][:2]:
+            # `0.5 + 1 rad` is accepted by the units module (a number converts to rad), `30 deg + 0.5` is not
+            raise RefSkip("angle added to a plain number")
         if tuple(-x for x in l[1]) == r[1]:
             notes.add("add-sub-reciprocal-dimensions")
         else:
@@ -196,6 +211,8 @@ def num_eval(a, env, notes=None):
             b, p = args
             if p[1] != NODIM:
                 raise RefSkip("dimensional exponent")
+            if b[1][2] != 0:
+                raise RefSkip("power of an angle")
             if b[0] == 0:
                 raise RefSkip("zero base")
             if p[0].denominator != 1 and b[1] != NODIM:
@@ -210,7 +227,9 @@ def num_eval(a, env, notes=None):
             e = abs(v) * (abs(p[0]) * b[2] / abs(b[0]) + 1 + F(abs(math.log(abs(float(b[0]))))) * p[2])
             return (v, dims, e)
         x = args[0]
-        if x[1] != NODIM:
+        if name in ("sin", "cos") and x[1] == ANGLE:
+            pass        # an angle carries its unit: x[0] is its value in rad
+        elif x[1] != NODIM:
             raise RefSkip("dimensional argument of " + name)
         xf = float(x[0])
         if name == "exp":
